@@ -64,7 +64,12 @@ SuperPairs == {<<t, c>> \in Classes \X Classes :
                   c \in SeqSet(Mro(t)) /\ \E o \in Objs : ClassOf[o] = t}
 
 Obs == [objs |-> [o \in Objs |-> [must |-> MustObj(o), may |-> MayObj(o),
-                                  dmust |-> Closure(oMust[o]) \ {Root},
+                                  \* directlyProvidedBy may leave out whatever
+                                  \* the class implements (the shared
+                                  \* declaration re-derives its bases when
+                                  \* the class' declarations change)
+                                  dmust |-> (Closure(oMust[o]) \
+                                             MayCls(ClassOf[o])) \ {Root},
                                   dmay |-> Closure(oMay[o])]],
         clss |-> [c \in Classes |-> [must |-> MustCls(c), may |-> MayCls(c),
                                      cobj |-> ProvidedClassObj(c)]],
